@@ -399,7 +399,9 @@ func grammarTexts(c *ctx, r *rand.Rand, nValid, nMut, nRand int) []txt {
 		}
 	}
 	headers := []string{"", "# a comment\n", "// another\n\n", "\n\n  \t\n", "# one\n# two\n\n// three\n", "#\n", "//no space\n \n"}
-	importSets := [][]string{nil, {`import "fmt"`}, {`import f "fmt"`, `import "os/exec"`}, {"import (\n\"strings\"\nx \"os\"\n)"}, {"import (\n \"a/b-c.d\"\n\n y_1 \"z\"\n )"}, {`import"fmt"`}, {`import io "io"`, `import strconv "strconv"`}}
+	importSets := [][]string{nil, {`import "fmt"`}, {`import f "fmt"`, `import "os/exec"`}, {"import (\n\"strings\"\nx \"os\"\n)"}, {"import (\n \"a/b-c.d\"\n\n y_1 \"z\"\n )"}, {`import"fmt"`}, {`import io "io"`, `import strconv "strconv"`},
+		// an alias equal to the last element of a longer path is not redundant: the package there may be named otherwise
+		{`import v2 "x/lib/v2"`, `import yaml "gopkg.in/yaml.v3"`}, {"import (\n lib \"a/b/lib\"\n b \"a/b\"\n)"}}
 	states := []string{"", " n int", " m map[string]struct{ a int }\n f func() { }", " s string // {}", "\n"}
 	esc := []rune("ab'\"[]-\\^\n\t\r\x1b\x7féÿ\u0080AZ09 {}<>/&!?*+.()#←\U0001F600")
 	for i := 0; i < nValid; i++ {
